@@ -166,8 +166,8 @@ pub fn explore(def: &CheckDef, tier: Tier, base_seed: u64, known: &[String]) -> 
     let max_runs: u64 = std::env::var("MEMSIM_MAX_RUNS").ok().and_then(|s| s.parse().ok()).unwrap_or(if tier == Tier::Quick && !env_budget { crate::checks::quick_runs(def.id) } else { u64::MAX });
     let budget = if tier == Tier::Quick && !env_budget { budget * 3 } else { budget };
     let timeout = Duration::from_secs(match tier {
-        Tier::Quick => 150,
-        Tier::Thorough => 400,
+        Tier::Quick => 400,
+        Tier::Thorough => 900,
     });
     let t0 = Instant::now();
     let mut agg = Agg {
